@@ -94,7 +94,73 @@ ROUTES = {
     'Array-trailing': lambda s, tc, tok: Array('u3', s).trailing_bits,
     'Array-from-Array-data': lambda s, tc, tok: Array('u1', Array('u1', s)).data,
 }
-NEEDS_LEN = {'invert', 'lshift0', 'rshift0', 'rshift1', 'cut-whole', 'and-ones', 'xor-zeros'}
+
+def _into(method):
+    def f(s, tc, tok):
+        if method == 'prepend-empty':
+            t = tc(); t.prepend(s)
+        elif method == 'append-empty':
+            t = tc(); t.append(s)
+        elif method == 'iadd-empty':
+            t = tc(); t += s
+        elif method == 'insert-empty':
+            t = tc(); t.insert(s, 0)
+        elif method == 'setslice-empty':
+            t = tc(); t[0:0] = s
+        elif method == 'setslice-all':
+            t = tc('0b101'); t[:] = s
+        elif method == 'prepend':
+            t = tc('0b1'); t.prepend(s)
+        elif method == 'append':
+            t = tc('0b1'); t.append(s)
+        elif method == 'overwrite':
+            t = tc(len(s)); t.overwrite(s, 0)
+        elif method == 'replace-new':
+            t = tc('0b1'); t.replace('0b1', s)
+        elif method == 'ior-zeros':
+            t = tc(len(s)); t |= s
+        elif method == 'ixor-zeros':
+            t = tc(len(s)); t ^= s
+        elif method == 'imul1':
+            t = tc(s); t *= 1
+        return t
+    return f
+
+
+for _m in ('prepend-empty', 'append-empty', 'iadd-empty', 'insert-empty', 'setslice-empty', 'setslice-all', 'prepend', 'append', 'overwrite',
+           'replace-new', 'ior-zeros', 'ixor-zeros', 'imul1'):
+    ROUTES['into:' + _m] = _into(_m)
+
+
+def _value(s):
+    return len(s) % 13 + 3
+
+
+# value-keyed constructions: the same (dtype, value) built twice must give independent objects (an encoder that caches its result
+# would hand the same store to both)
+KW = {'ue': lambda n: {'ue': n}, 'se': lambda n: {'se': -n}, 'uie': lambda n: {'uie': n}, 'sie': lambda n: {'sie': n},
+      'uint8': lambda n: {'uint': n, 'length': 8}, 'int12': lambda n: {'int': -n, 'length': 12}, 'hex': lambda n: {'hex': format(n, '04x')},
+      'bin': lambda n: {'bin': format(n, '06b')}, 'float32': lambda n: {'float': n + 0.5, 'length': 32}, 'bool': lambda n: {'bool': True},
+      'bytes': lambda n: {'bytes': bytes([n, n])}, 'uintle16': lambda n: {'uintle': n, 'length': 16}, 'bfloat': lambda n: {'bfloat': float(n)},
+      'e4m3mxfp': lambda n: {'e4m3mxfp': float(n)}, 'zeros': lambda n: {'length': n}}
+for _k, _f in KW.items():
+    ROUTES['kw:' + _k] = (lambda f: (lambda s, tc, tok: tc(**f(_value(s)))))(_f)
+SETTERS = {'ue': lambda n: n, 'se': lambda n: -n, 'uie': lambda n: n, 'sie': lambda n: -n, 'uint8': lambda n: n, 'hex': lambda n: format(n, '04x'),
+           'float32': lambda n: n + 0.5, 'bytes': lambda n: bytes([n, n]), 'bin': lambda n: format(n, '06b')}
+
+
+def _setter(name, f):
+    def g(s, tc, tok):
+        t = tc()
+        setattr(t, name, f(_value(s)))
+        return t
+    return g
+
+
+for _k, _f in SETTERS.items():
+    ROUTES['setter:' + _k] = _setter(_k, _f)
+MUTABLE_TARGET_ONLY = {r for r in ROUTES if r.startswith('into:') or r.startswith('setter:')}
+NEEDS_LEN = {'invert', 'lshift0', 'rshift0', 'rshift1', 'cut-whole', 'and-ones', 'xor-zeros', 'into:overwrite', 'into:ior-zeros', 'into:ixor-zeros'}
 EXT_ROUTES = {            # external buffer kind -> {route: f(ext, tc)}
     'bytearray': {'ctor': lambda x, tc: tc(x), 'bytes=': lambda x, tc: tc(bytes=x), 'bytes=off': lambda x, tc: tc(bytes=x, offset=0, length=len(x) * 8)},
     'memoryview': {'ctor': lambda x, tc: tc(x), 'bytes=': lambda x, tc: tc(bytes=x)},
@@ -210,6 +276,7 @@ def episode(ctx, case, nsteps=0):
     pop = []
     strings = {}
     edge_of_buffer = {}
+    first_bits = {}       # value-keyed routes: bits of the first construction of that value in this episode
     rkind, bits, rcls = case['root']
     tok = '0b' + bits
     with util.options(lsb0=False):
@@ -279,6 +346,8 @@ def episode(ctx, case, nsteps=0):
                 tc = CLASSES[tcn]
                 if route in NEEDS_LEN and not len(s):
                     continue
+                if route in MUTABLE_TARGET_ONLY and tcn not in util.MUTABLE:
+                    continue
                 if route == 'prop-bits':
                     def f():
                         o = tc()
@@ -306,6 +375,13 @@ def episode(ctx, case, nsteps=0):
                     pop.append(e)
                 else:
                     reg(o, 'bits', route)
+                    if route.startswith(('kw:', 'setter:')) or route in ('ctor-str', 'fromstring'):
+                        vk = (route, _value(s) if route.startswith(('kw:', 'setter:')) else tok)
+                        fb = first_bits.setdefault(vk, B(o))
+                        if B(o) != fb:
+                            ctx.mismatch(f'C04|value-construction-poisoned|edge={route}', case,
+                                         f'{route} -> {tcn} now gives {B(o)[:60]}, the first construction of the same value gave {fb[:60]}')
+                            first_bits[vk] = B(o)
                 ctx.ok(('derive', route, type(s).__name__, tcn), True)
             else:
                 _, ti, mk_ = st
@@ -437,12 +513,17 @@ def pairs(ctx):
                     n += 1
                     if not ctx.mine(n):
                         continue
-                    if route == 'prop-bits' and tcn not in ('BitArray', 'BitStream'):
+                    if (route == 'prop-bits' or route in MUTABLE_TARGET_ONLY) and tcn not in ('BitArray', 'BitStream'):
                         continue
                     for rk in ('bin', 'str'):
                         mk_ = ctx.rng.choice(MUTATIONS)
-                        case = {'root': [rk, '0110100110010110', sc], 'steps': [['derive', route, 0, tcn], ['mutate', side, mk_],
-                                                                                   ['mutate', 1 - side, ctx.rng.choice(MUTATIONS)]]}
+                        steps = [['derive', route, 0, tcn], ['mutate', side, mk_], ['mutate', 1 - side, ctx.rng.choice(MUTATIONS)]]
+                        if route.startswith('kw:') or route.startswith('setter:'):
+                            other = ctx.rng.choice(TC if route.startswith('kw:') else ['BitArray', 'BitStream'])
+                            steps = [['derive', route, 0, tcn], ['derive', route, 0, other], ['mutate', 1 + side, mk_],
+                                     ['derive', route, 0, 'Bits' if route.startswith('kw:') else 'BitArray'], ['mutate', 2 - side, ctx.rng.choice(MUTATIONS)],
+                                     ['derive', route, 0, tcn]]
+                        case = {'root': [rk, '0110100110010110', sc], 'steps': steps}
                         ctx.run_case(lambda c, k: episode(c, k), case)
     for rk, routes_ in EXT_ROUTES.items():
         for route in routes_:
